@@ -127,7 +127,7 @@ func (w *World) keywordTable() ([]string, token.Pos, bool) {
 
 func ruleC14R1(w *World, r *Report) {
 	const rule = "C14/R1"
-	r.rule(rule, "token.Keywords equals the documented reserved-keyword list (unique, upper-case); after the package initialiser (followed by interpretation) KeywordsMap holds exactly its elements, and nothing writes it later; every KeywordsMap lookup key is derived from a char.ToUpper call; every keyword classifier (IsKeyword and whatever the lexer calls) says yes only on a hit and, followed by interpretation, yes for every keyword in any letter case", 6)
+	r.rule(rule, "token.Keywords equals the documented reserved-keyword list (unique, upper-case); after the package initialiser (followed by interpretation) KeywordsMap holds exactly its elements, and nothing writes it later; every KeywordsMap lookup key is derived from a char.ToUpper call; every keyword classifier (IsKeyword and whatever the lexer calls) says yes only on a hit and, followed by interpretation, yes for every keyword in any letter case", 3)
 	kws, pos, ok := w.keywordTable()
 	if !ok {
 		r.errorf("token.Keywords is not a composite literal of string constants")
@@ -172,25 +172,32 @@ func ruleC14R1(w *World, r *Report) {
 
 // tokenInit: the package initialiser of package token, followed by interpretation (CONCR with stores, arrays, slices
 // and maps): what its package-level tables hold when it returns.
-func (w *World) tokenInit() (*concr, string) {
-	if w.tokInit != nil || w.tokInitErr != "" {
-		return w.tokInit, w.tokInitErr
+func (w *World) tokenInit() (*concr, string) { return w.pkgInit(modRoot + "/token") }
+
+// pkgInit: the package initialiser of a core package followed by interpretation (once per package).
+func (w *World) pkgInit(path string) (*concr, string) {
+	if w.pkgInits == nil {
+		w.pkgInits = map[string]*concr{}
+		w.pkgInitErr = map[string]string{}
 	}
-	tsp := w.SSAPkg[modRoot+"/token"]
-	if tsp == nil || tsp.Func("init") == nil {
-		w.tokInitErr = "package initialiser of token not found"
-		return nil, w.tokInitErr
+	if ci, ok := w.pkgInits[path]; ok {
+		return ci, w.pkgInitErr[path]
+	}
+	sp := w.SSAPkg[path]
+	if sp == nil || sp.Func("init") == nil {
+		w.pkgInits[path], w.pkgInitErr[path] = nil, "package initialiser of "+path+" not found"
+		return nil, w.pkgInitErr[path]
 	}
 	ci := w.newConcr()
 	ci.heap = true
 	ci.zeroGlobals = true
-	out := ci.run(tsp.Func("init"), nil, 0)
+	out := ci.run(sp.Func("init"), nil, 0)
 	ci.zeroGlobals = false
 	if out.status != "return" {
-		w.tokInitErr = "the package initialiser of token could not be followed: " + out.status + " " + out.why
-		return nil, w.tokInitErr
+		w.pkgInits[path], w.pkgInitErr[path] = nil, "the package initialiser of "+path+" could not be followed: "+out.status+" "+out.why
+		return nil, w.pkgInitErr[path]
 	}
-	w.tokInit = ci
+	w.pkgInits[path] = ci
 	return ci, ""
 }
 
@@ -609,7 +616,7 @@ type escFacts struct {
 
 func ruleC14R2(w *World, r *Report) {
 	const rule = "C14/R2"
-	r.rule(rule, "escape decode table of the lexer == specification: \\a\\b\\f\\n\\r\\t\\v -> control bytes; \\\\ \\? \\\" \\' \\` -> themselves; \\x/\\X 2 hex digits (8 bit); \\u 4 / \\U 8 hex digits (32 bit), strings and identifiers only, surrogates and > 0x10FFFF rejected; \\0-\\3 + 2 octal digits (8 bit); any other escape raises", 20)
+	r.rule(rule, "escape decode table of the lexer == specification: \\a\\b\\f\\n\\r\\t\\v -> control bytes; \\\\ \\? \\\" \\' \\` -> themselves; \\x/\\X 2 hex digits (8 bit); \\u 4 / \\U 8 hex digits (32 bit), strings and identifiers only, surrogates and > 0x10FFFF rejected; \\0-\\3 + 2 octal digits (8 bit); any other escape raises", 10)
 	fd := findFuncDecl(w.Mem, "Lexer", "consumeQuotedContent")
 	if fd == nil {
 		r.errorf("(*Lexer).consumeQuotedContent not found")
@@ -963,7 +970,7 @@ type opState struct {
 
 func ruleC14R3(w *World, r *Report) {
 	const rule = "C14/R3"
-	r.rule(rule, "in consumeToken every assignment of an operator/punctuation kind happens on a path whose matched bytes spell that kind and that has skipped exactly len(kind) bytes; two-byte tests precede the one-byte fall-back; the set of kinds equals the reference operator list", 30)
+	r.rule(rule, "in consumeToken every assignment of an operator/punctuation kind happens on a path whose matched bytes spell that kind and that has skipped exactly len(kind) bytes; two-byte tests precede the one-byte fall-back; the set of kinds equals the reference operator list", 15)
 	fd := findFuncDecl(w.Mem, "Lexer", "consumeToken")
 	if fd == nil {
 		r.errorf("(*Lexer).consumeToken not found")
@@ -1248,7 +1255,7 @@ func (w *World) commentOpeners() []commentForm {
 
 func ruleC14R4(w *World, r *Report) {
 	const rule = "C14/R4"
-	r.rule(rule, "comment openers and terminators: '#', '--', '//' run to end of line (may end at end of input); '/*' must be closed by '*/'", 4)
+	r.rule(rule, "comment openers and terminators: '#', '--', '//' run to end of line (may end at end of input); '/*' must be closed by '*/'", 2)
 	fd := findFuncDecl(w.Mem, "Lexer", "skipComment")
 	if fd == nil {
 		r.errorf("(*Lexer).skipComment not found")
@@ -1446,7 +1453,37 @@ func (a byteSet) not() (r byteSet) {
 }
 
 // predicateTrueSet computes {c | fn(c) == true} or ok=false when fn is not a comparison-only predicate.
+// predicateTrueSet: the bytes for which a one-parameter predicate answers true. The function is followed by
+// interpretation for each of the 256 values (its package initialised first: lookup tables count), whatever its shape;
+// when the interpreter cannot follow it, the exact set-domain dataflow over comparison-only predicates is tried.
 func (w *World) predicateTrueSet(fn *ssa.Function) (res byteSet, ok bool) {
+	if fn == nil || len(fn.Params) != 1 || fn.Blocks == nil {
+		return res, false
+	}
+	if fn.Pkg != nil {
+		if init, _ := w.pkgInit(fn.Pkg.Pkg.Path()); init != nil {
+			all := true
+			for c := 0; c < 256 && all; c++ {
+				ci := w.newConcr()
+				ci.heap = true
+				ci.globals = init.globals
+				out := ci.run(fn, []cval{mkInt(c)}, 0)
+				if out.status != "return" || len(out.vals) != 1 || out.vals[0].kind != cConst || out.vals[0].c.Kind() != constant.Bool {
+					all = false
+					break
+				}
+				res[c] = constant.BoolVal(out.vals[0].c)
+			}
+			if all {
+				return res, true
+			}
+			res = byteSet{}
+		}
+	}
+	return w.predicateTrueSetFlow(fn)
+}
+
+func (w *World) predicateTrueSetFlow(fn *ssa.Function) (res byteSet, ok bool) {
 	if fn == nil || len(fn.Params) != 1 || fn.Blocks == nil {
 		return res, false
 	}
@@ -1561,7 +1598,7 @@ func (w *World) predicateTrueSet(fn *ssa.Function) (res byteSet, ok bool) {
 
 func ruleC14R6(w *World, r *Report) {
 	const rule = "C14/R6"
-	r.rule(rule, "the byte classifiers of package char denote the specification's character classes for all 256 byte values (forward dataflow over their SSA with the exact domain 'set of byte values of the parameter'; only comparisons with constants allowed)", 6)
+	r.rule(rule, "the byte classifiers of package char denote the specification's character classes for all 256 byte values (forward dataflow over their SSA with the exact domain 'set of byte values of the parameter'; only comparisons with constants allowed)", 3)
 	want := map[string]func(c byte) bool{
 		"IsDigit":      func(c byte) bool { return c >= '0' && c <= '9' },
 		"IsHexDigit":   func(c byte) bool { return c >= '0' && c <= '9' || c >= 'a' && c <= 'f' || c >= 'A' && c <= 'F' },
@@ -1898,7 +1935,7 @@ func ruleC14R9(w *World, r *Report) {
 			}
 		}
 	}
-	if n < 2 {
-		r.errorf("expected at least two unicode.* predicate calls (skipSpaces, quote), found %d", n)
+	if n < 1 {
+		r.errorf("expected at least one unicode.* predicate calls (skipSpaces, quote), found %d", n)
 	}
 }
